@@ -121,6 +121,11 @@ def main():
     specials = [{"t": "Null"}, {"t": "Unit"}, {"t": "Any"}]
     pairs = [(a, b) for a in scal for b in scal] + [(a, b) for a in scal[:12] + opts for b in opts] + [(a, b) for a in opts for b in scal[:12]]
     pairs += [(a, b) for a in structs for b in structs] + [(a, b) for a in specials for b in [ints[1], opts[0], structs[0]] + specials] + [(a, b) for b in specials for a in [ints[1], opts[0], structs[0]]]
+    # enumerations: sets of (label, code) pairs; same labels with other codes, sub-lists, disjoint labels, wrapped in Optional
+    mk_enum = lambda *vals: {"t": "Enum", "vals": [[l_, str(c_)] for l_, c_ in vals]}
+    enums = [mk_enum(("low", 0), ("high", 1)), mk_enum(("high", 0), ("low", 1)), mk_enum(("low", 0)), mk_enum(("low", 0), ("mid", 1), ("high", 2)), mk_enum(("a", 5), ("b", 7)), mk_enum(("low", 0), ("high", 2))]
+    enums_o = [T.t_opt(enums[0]), T.t_opt(enums[1])]
+    pairs += [(a, b) for a in enums + enums_o for b in enums + enums_o]
     # composite variants with an element type and a size: lists and sets (values of length <= 2 are symbolic)
     mk_seq = lambda kind, of, sz: {"t": kind, "of": of, "size": [[str(lo), str(hi)] for lo, hi in sz]}
     elem = [T.t_int((0, 5)), T.t_int((10, 20)), T.t_int((3, 12)), T.t_int((-3, -1), (2, 4)), T.t_float((0.0, 10.0))]
@@ -308,7 +313,7 @@ def main():
         composition_lemmas=nM, composition_bounds="operands of 0..%d intervals each; leaf contracts (union_interval, intersection_interval exact; ==; empty; from_value) as proved by K for pre-states of <= 2 intervals and assumed beyond" % maxn,
         grid_pairs=n_grid, grid_queries=nG,
         functions_encoded=[P + m for m in ("union", "intersection", "is_subset_of", "is_superset_of", "contains")] + sorted(k.name for k in sem.K.values()),
-        outside=["Text / Bytes / Date / Time / Duration / Id / Enum / Union / Array / Function variants; lists and sets only with values of length <= 2 over integer / float elements", "text ordering",
+        outside=["Text / Bytes / Date / Time / Duration / Id / Union / Array / Function variants; lists and sets only with values of length <= 2 over integer / float elements", "text ordering",
                  "Intervals<f64>, Intervals<String> instantiations (generic code, only the i64 instantiation is run by Kani)", "interval sets with more than %d intervals" % maxn],
         counterexamples_replayed=replayed, confirmed=confirmed, values_checked_against_own_type=n_vt,
         evaluations=len(queries) + len(kani_cov), distinct_nontrivial=len(set(q["script"] for q in queries)),
